@@ -29,7 +29,10 @@ RULE = ("faults = for every byte position of every frame (hello, handshake, each
         "handshake, wrong marker on each frame, name mismatch, differently keyed responder); framing mismatches both ways; key strings "
         "of every decoded length 0..64 and malformed alphabets. Each fault x 4 chunk placements (separate / all in one chunk / fault "
         "coalesced with following good frames / with preceding). Non-trivial = the fault was applied and the outcome judged; distinct = "
-        "(fault kind, frame role, position class, placement, outcome class)")
+        "(fault kind, frame role, position class, placement, outcome class)"
+        " Part S: live Noise sessions on the simulated loop whose device deviates once (bit flip, truncation, replay, swap, drop, plaintext frame, empty "
+        "frame; own chunk or coalesced with its neighbours): states reaching a subscribe_states subscriber == genuine messages before the deviation, "
+        "CLOSED, first fatal class, stop hook once with False; wrong key / handshake error frame / plaintext device / malformed key through connect().")
 ASSUMPTIONS = [
     "independent NNpsk0 responder produces the genuine ciphertext; one deviation per session",
     "flips in outer length bytes, in the unauthenticated hello name, or producing undecodable text are judged on the prefix rule only",
